@@ -774,7 +774,7 @@ prop("C13",
 
 # ----------------------------------------------------------------------------- C18 (thread safety, TSan)
 TSAN = LibCfg(name="tsan", cc="clang", opt="-O2", cflags=["-fsanitize=thread", "-g", "-fno-omit-frame-pointer"])
-TSAN_ENV = {"TSAN_OPTIONS": "halt_on_error=0:report_signal_unsafe=0:exitcode=0:history_size=4"}
+TSAN_ENV = {"TSAN_OPTIONS": "halt_on_error=0:report_signal_unsafe=0:exitcode=0:history_size=4:suppressions=" + os.path.join(skv.VERIF, "harness", "tsan.supp")}
 
 prop("C18",
      units=lambda tier: [Unit("c18", "c18.cpp", TSAN, cases=scale(tier, 300, 6000), shards=8 if tier == "quick" else 16, cxx="clang++",
